@@ -149,13 +149,15 @@ func checkC11(c *Ctx) {
 	c.Rule("C11-R8", "the charset registration table pairs every name with the encoding object of the same name (typed text is decoded with the registered object)")
 	c.Expect("C11-R8", 25)
 	c.Rule("C11-R11", "the escape timer is re-armed only after a Stop whose 'already fired' answer drains the tick (a stale tick expires a half-received character into raw bytes)")
-	c.Expect("C11-R11", 2)
+	c.Expect("C11-R11", 4)
 	c.Rule("C11-R12", "the last bytes of the input are not lost: a read that returns bytes together with an error has its bytes queued (the split 'text, then end of input' is one of the read partitions)")
 	c.Expect("C11-R12", 1)
 	c.Rule("C11-R13", "every character the rune parser consumes is delivered, U+FFFD included when it was really sent: the only input consumed without an event is input the decoder substituted U+FFFD for and that is not the charset's encoding of U+FFFD")
 	c.Expect("C11-R13", 1)
 	c.Rule("C11-R10", "the decoder is chosen by the locale's codeset: LC_ALL, LC_CTYPE, LANG in that order; only the bare names C and POSIX mean US-ASCII (C.UTF-8 is UTF-8); no codeset means UTF-8")
 	c.Expect("C11-R10", 3)
+	c.Rule("C11-R15", "text comes first: in every cycle of the collect loop the rune parser is asked before the mouse parsers (0x9b is an ordinary character or lead byte in the registered legacy charsets)")
+	c.Expect("C11-R15", 1)
 	c.Rule("C11-R14", "a character cut by a read boundary waits for its rest on every path of the collect loop: each cycle progresses, the loop is left only on an empty buffer (or expiry), and the wait-for-more gate counts the 'partial' answer of every parser that is called, the rune parser's included")
 	c.Expect("C11-R14", 8)
 	c.Rule("C11-R9", "the key matcher's 'partial' answer accumulates over the key table (paste brackets split across reads are still recognised)")
@@ -285,6 +287,7 @@ func checkC11(c *Ctx) {
 		}
 		c.Check(ok, "C11-R4", "collect:"+nm+":unconditional", p.pos(collect.Pos()), "called once per iteration, not behind a capability test")
 	}
+	checkParserOrder(c, p, "C11-R15")
 	// R14: a character cut by a read boundary waits for its rest — whatever else the loop is doing (a
 	// paste in progress, say): the collect loop's rules of C02 (every cycle progresses, it is left only
 	// on an empty buffer or with every parser's 'partial' answer counted into the wait-for-more gate)
